@@ -21,6 +21,9 @@ pub fn build_java(dir: &std::path::Path, descs: Vec<RemoteDesc>) -> (Vec<RemoteD
             Ok(Ok(())) => gen_ok.push(rd),
             other => {
                 if std::env::var("PDLV_SURVEY").is_ok() {
+                    if std::env::var("PDLV_SURVEY").as_deref() == Ok("text") {
+                        println!("---- text of p{}\n{}", rd.idx, rd.text);
+                    }
                     println!("dropped: generator: {}", match other { Err(m) => m, Ok(Err(e)) => e.to_string(), _ => String::new() }.chars().take(160).collect::<String>());
                 }
                 dropped += 1
@@ -41,6 +44,9 @@ pub fn build_java(dir: &std::path::Path, descs: Vec<RemoteDesc>) -> (Vec<RemoteD
                             let e = String::from_utf8_lossy(&o.stderr);
                             let l: Vec<&str> = e.lines().take(3).collect();
                             println!("dropped: javac: {}", l.join(" | ").chars().take(300).collect::<String>());
+                            if std::env::var("PDLV_SURVEY").as_deref() == Ok("text") {
+                                println!("---- text of p{}\n{}", rd.idx, rd.text);
+                            }
                         }
                     }
                     o.map(|o| o.status.success()).unwrap_or(false)
